@@ -1,5 +1,6 @@
 import TsVerif.Common.Tree
 import TsVerif.C03.Driver
+import TsVerif.C03.Memo
 import TsVerif.C03.Glr
 import TsVerif.C03.Sound
 import TsVerif.C03.Relate
